@@ -424,11 +424,30 @@ var exploreKnown func(cond ssa.Value) (bool, bool)
 // helper added since the baseline (one that classifies it: nil / Stop / other).
 func errClassifierCall(v ssa.Value) (*ssa.Call, int) {
 	refs := v.Referrers()
-	if refs == nil || len(*refs) != 1 {
+	if refs == nil {
 		return nil, 0
 	}
-	hc, ok := (*refs)[0].(*ssa.Call)
-	if !ok {
+	// besides tests against nil, the helper call is the only use
+	var hc *ssa.Call
+	for _, r := range *refs {
+		switch x := r.(type) {
+		case *ssa.BinOp:
+			if (x.Op == token.EQL || x.Op == token.NEQ) && (isNilConst(x.X) || isNilConst(x.Y)) {
+				continue
+			}
+			return nil, 0
+		case *ssa.DebugRef:
+			continue
+		case *ssa.Call:
+			if hc != nil {
+				return nil, 0
+			}
+			hc = x
+		default:
+			return nil, 0
+		}
+	}
+	if hc == nil {
 		return nil, 0
 	}
 	h := hc.Call.StaticCallee()
